@@ -1,17 +1,34 @@
 package stores
 
-import "github.com/wrgl/wrgl/pkg/objects"
+import (
+	"sync"
+
+	"github.com/wrgl/wrgl/pkg/objects"
+)
 
 // Overlay is an objects.Store whose writes go to Top while reads fall through to Base:
 // code under test can read shared fixtures without being able to alter them.
 type Overlay struct {
 	Base objects.Store
 	Top  *MemStore
+	// fault injection on reads: the FailGetAt-th Get fails; every Get from the FailGetFrom-th on fails
+	Gets, FailGetAt, FailGetFrom, Injected int
+	mu                                     sync.Mutex
 }
 
 func NewOverlay(base objects.Store) *Overlay { return &Overlay{Base: base, Top: NewMemStore()} }
 
 func (o *Overlay) Get(k []byte) ([]byte, error) {
+	o.mu.Lock()
+	o.Gets++
+	fail := (o.FailGetAt > 0 && o.Gets == o.FailGetAt) || (o.FailGetFrom > 0 && o.Gets >= o.FailGetFrom)
+	if fail {
+		o.Injected++
+	}
+	o.mu.Unlock()
+	if fail {
+		return nil, ErrInjected
+	}
 	if v, err := o.Top.Get(k); err == nil {
 		return v, nil
 	}
